@@ -1268,10 +1268,14 @@ class Model:
 
         # Evaluate common terms
         encodings = self._get_encoding_bools()
-        self.add_extra_terms(encodings, data, env)
 
-        # Need to get encodings again after creating possible extra terms
-        encodings = self._get_encoding_bools()
+        # Extra terms may need extra terms themselves: add them until every term has one encoding
+        for _ in range(len(self.common_terms) + 10):
+            if not any(hasattr(enc, "__len__") and len(enc) > 1 for enc in encodings.values()):
+                break
+            self.add_extra_terms(encodings, data, env)
+            # Need to get encodings again after creating possible extra terms
+            encodings = self._get_encoding_bools()
 
         for term in self.common_terms:
             if term.name in encodings:
